@@ -91,12 +91,17 @@ pub fn generate_c15(rng: &mut Rng, idx: usize, _tier: Tier) -> CaseOut {
         let ext = f.path.rsplit('.').next().unwrap_or("py").to_string();
         let dir = f.path.split('/').next().unwrap_or("src").to_string();
         let name = f.path.rsplit('/').next().unwrap_or("x").to_string();
-        match rng.below(6) {
+        // (forms 6 and 7 match a DIRECTORY's path, not the files below it: --ignore globs are matched
+        // against file paths, so as ignore globs they exclude nothing)
+        let parent = f.path.rfind('/').map(|i| f.path[..i].to_string());
+        match rng.below(8) {
             0 => format!("*.{ext}"),
             1 => format!("**/*.{ext}"),
             2 if f.path.contains('/') => format!("{dir}/**"),
             3 => format!("**/{name}"),
             4 => f.path.clone(),
+            6 if parent.is_some() => format!("**/{}", parent.as_deref().unwrap().rsplit('/').next().unwrap()),
+            7 if parent.is_some() => parent.unwrap(),
             _ => "**".to_string(),
         }
     };
@@ -251,8 +256,36 @@ pub fn generate_c16(rng: &mut Rng, idx: usize, _tier: Tier) -> CaseOut {
         ("# </block>\n// </block>\n/* </block> */\n<!-- </block> -->\n".to_string(), vec![])
     };
     let via_diff = shape == 2 || rng.chance(1, 4);
+    // a sibling in the same run whose name ends in the same last dot-suffix but is looked up on its own
+    // (go.mod beside deps.mod, x.d.ts beside y.ts, x.py.bak beside y.bak): each file's grammar depends on
+    // its own name only
+    let mut sibling: Option<(String, String, Vec<ExpBlock>, Option<Family>)> = None;
+    if !via_diff && idx % 10 != 9 && rng.chance(1, 3) {
+        if let Some(last) = name.rsplit('.').next().filter(|l| *l != name) {
+            let sname = format!("{dir}sib{}.{last}", idx % 7);
+            if sname != path {
+                let sfam = family_of_path(&sname, &ext);
+                let (stext, sblocks) = match sfam {
+                    Some(f) => {
+                        // content in the syntax of the grammar that will parse it (the -E target, else the suffix itself)
+                        let starget = ext.iter().rev().find(|(k, _)| k == last).map(|(_, v)| v.as_str()).unwrap_or(last);
+                        let sl: &'static Lang = all_suffixes.iter().find(|(s, _)| *s == starget).map(|(_, l)| *l).filter(|l| l.family == f)
+                            .unwrap_or_else(|| all_langs.iter().find(|l| l.family == f).copied().unwrap_or(lang));
+                        one_block_file(sl, rng, "s", false)
+                    }
+                    None => ("# </block>\n// </block>\n/* </block> */\n<!-- </block> -->\n".to_string(), vec![]),
+                };
+                sibling = Some((sname, stext, sblocks, sfam));
+            }
+        }
+    }
+    let mut run_files = vec![(path.clone(), text.clone())];
+    if let Some((sp, st, _, _)) = &sibling {
+        // either order of discovery
+        if rng.chance(1, 2) { run_files.push((sp.clone(), st.clone())) } else { run_files.insert(0, (sp.clone(), st.clone())) }
+    }
     let spec = RunSpec {
-        files: vec![(path.clone(), text.clone())],
+        files: run_files.clone(),
         globs: if via_diff { vec![] } else { vec!["**".into()] },
         diff: if via_diff { Some(whole_file_diff(&path, &text, rng)) } else { None },
         ext: ext.clone(),
@@ -260,20 +293,31 @@ pub fn generate_c16(rng: &mut Rng, idx: usize, _tier: Tier) -> CaseOut {
     };
     let out = imp::run(&spec);
     let (_, comments, _) = fcases(&spec);
-    let spans: Vec<String> = comments[0].iter().map(|cm| {
+    let main_at = run_files.iter().position(|(p, _)| *p == path).unwrap();
+    let spans: Vec<String> = comments[main_at].iter().map(|cm| {
         let raw = text.get(cm.lo..cm.hi).unwrap_or("");
         format!("mkspan {} {} {} {}", cm.lo, cm.hi, expected_family.map(|x| kind_of(x, raw, cm.group)).unwrap_or(K_RAW), cm.group)
     }).collect();
+    let rfiles_coq: Vec<String> = run_files.iter().enumerate().map(|(k, (p, t))| {
+        let sp: Vec<String> = comments[k].iter().map(|cm| format!("mkspan {} {} 0 {}", cm.lo, cm.hi, cm.group)).collect();
+        format!("(mkrfile {} {} [{}] true true false)", cstr(p), cstr(t), if k == main_at { spans.join("; ") } else { sp.join("; ") })
+    }).collect();
     let rcase = format!(
-        "(mkrcase [(mkrfile {} {} [{}] true true false)] {} {} {} [] [] {} [])",
-        cstr(&path), cstr(&text), spans.join("; "), copt(&spec.diff, |d| cstr(d)), cbool(!via_diff),
+        "(mkrcase [{}] {} {} {} [] [] {} [])",
+        rfiles_coq.join("; "), copt(&spec.diff, |d| cstr(d)), cbool(!via_diff),
         clist(&ext, |(k, v)| cpair(cstr(k), cstr(v))), Tables::default().coq()
     );
-    let exp: Vec<String> = blocks.iter().map(|b| {
+    let mut exp: Vec<String> = blocks.iter().map(|b| {
         let name = b.attrs.iter().find(|(k, _)| k == "name").map(|(_, v)| v.clone()).unwrap_or_default();
         format!("({}, mklblock {} {} {} {} {})", cstr(&path), cstr(&name), b.ts.0, b.ts.1, cbool(via_diff), emit::attrs(&b.attrs))
     }).collect();
-    let mut tags = vec![format!("suffix:{suffix}"), format!("shape:{shape}"), format!("resolves:{resolves}"), format!("via-diff:{via_diff}")];
+    if let Some((sp, _, sblocks, _)) = &sibling {
+        for b in sblocks {
+            let name = b.attrs.iter().find(|(k, _)| k == "name").map(|(_, v)| v.clone()).unwrap_or_default();
+            exp.push(format!("({}, mklblock {} {} {} false {})", cstr(sp), cstr(&name), b.ts.0, b.ts.1, emit::attrs(&b.attrs)));
+        }
+    }
+    let mut tags = vec![format!("sibling:{}", match &sibling { Some((_, _, _, Some(_))) => "resolves", Some(_) => "skipped", None => "none" }), format!("suffix:{suffix}"), format!("shape:{shape}"), format!("resolves:{resolves}"), format!("via-diff:{via_diff}")];
     // a -E mapping onto an unsupported grammar is rejected up front (real binary)
     let mut extra = true;
     let mut cli_json = json!(null);
@@ -316,10 +360,14 @@ pub fn generate_c16(rng: &mut Rng, idx: usize, _tier: Tier) -> CaseOut {
             split = true;
         }
         let args = m.argv(rng);
-        let c = cli::run(&CliRun { files: vec![(path.clone(), text.clone())], args: args.clone(), stdin: spec.diff.clone(), ..Default::default() });
+        let c = cli::run(&CliRun { files: run_files.clone(), args: args.clone(), stdin: spec.diff.clone(), ..Default::default() });
+        let mfiles: Vec<String> = rfiles_coq.iter().map(|r| {
+            let body = r.strip_prefix("(mkrfile ").and_then(|x| x.strip_suffix(" true true false)")).expect("rfile shape");
+            format!("(mkmfile {body} true true false false false)")
+        }).collect();
         coq = format!(
-            "(check_scope_main {} [(mkmfile {} {} [{}] true true false false false)] {} [] {} (Some [{}]) true)",
-            m.coq(&spec.diff, true), cstr(&path), cstr(&text), spans.join("; "), Tables::default().coq(), mainargs::mobs_coq(&c, true), exp.join("; ")
+            "(check_scope_main {} [{}] {} [] {} (Some [{}]) true)",
+            m.coq(&spec.diff, true), mfiles.join("; "), Tables::default().coq(), mainargs::mobs_coq(&c, true), exp.join("; ")
         );
         tags.push("via:cli".into());
         tags.push(format!("ext-split:{split}"));
